@@ -10,6 +10,7 @@ import (
 	"strconv"
 	"sync"
 	"sync/atomic"
+	"time"
 )
 
 // Tracer writes one JSON object per line. Seq numbers come from one atomic
@@ -24,6 +25,9 @@ type Tracer struct {
 	N   int
 	// Sync flushes after every event so that a crash of the code under test loses nothing.
 	Sync bool
+	// Stamp adds a wall-clock offset (diagnostics only, never used for ordering).
+	Stamp bool
+	t0    time.Time
 }
 
 func NewTracer(path string) (*Tracer, error) {
@@ -31,7 +35,7 @@ func NewTracer(path string) (*Tracer, error) {
 	if err != nil {
 		return nil, err
 	}
-	return &Tracer{f: f, w: bufio.NewWriterSize(f, 1<<20)}, nil
+	return &Tracer{f: f, w: bufio.NewWriterSize(f, 1<<20), t0: time.Now()}, nil
 }
 
 // Emit writes ev with a fresh "seq" field.
@@ -39,6 +43,9 @@ func (t *Tracer) Emit(ev map[string]any) {
 	t.mu.Lock()
 	defer t.mu.Unlock()
 	ev["seq"] = t.seq.Add(1)
+	if t.Stamp {
+		ev["us"] = time.Since(t.t0).Microseconds()
+	}
 	b, err := json.Marshal(ev)
 	if err != nil {
 		panic(err)
